@@ -581,7 +581,6 @@ func loadKnown() KnownFile {
 // ---------------------------------------------------------------------------
 // race logs
 
-
 // racingFrame: the function performing the racing access of one stack of a race
 // report = the first frame that is not in the runtime.
 var anyFrameRe = regexp.MustCompile(`(?m)^\s+(\S+)\(\)\s*$`)
